@@ -6,9 +6,9 @@ PROPS = {
  "C02": ("round-robin scheduling, bounded FIFO queues, stop conditions", "Lean theorems on the bounded FIFO / scheduler reference + cycle-by-cycle correspondence of battles against the reference scheduler"),
  "C04": ("simulator invariant preserved by every operation; creation is refuse-or-sound", "Lean invariant theorems + correspondence with the invariant evaluated on every observed state"),
  "C11": ("locality of every folded pointer; full limits are no limits", "Lean theorems on the reference folding + correspondence with locality predicates on observed core diffs"),
- "C12": ("rotation equivariance; offsets congruent mod M", "Lean theorems on the reference semantics + paired shifted battles compared by the driver"),
+ "C12": ("rotation equivariance; offsets congruent mod M", "Lean theorems on the reference semantics and on the model (also for a reused simulator after Reset) + paired shifted battles compared by the driver"),
  "C13": ("API state machine: no panics, rejected calls are no-ops, reset = fresh", "Lean theorems about the API model + exhaustive small-depth and random call sequences against the reference state machine"),
- "C15": ("reports cover every change at valid addresses; recorder = last-writer fold", "Lean theorems about reports/recorder + per-task report predicates on observed report streams"),
+ "C15": ("reports cover every change at valid addresses; recorder = last-writer fold", "Lean theorems about reports/recorder and about the debug reporter's lines + per-task report predicates on observed report streams; the debug reporter's output compared line by line"),
 }
 import sys
 extra = {}
